@@ -55,10 +55,15 @@ def res_strategy(tier):
     vec = st.lists(st.tuples(st.sampled_from(TYPES), st.integers(0, 4)), min_size=1, max_size=5)
     rid = st.one_of(st.just("any"), st.integers(0, 4))
     req = st.tuples(st.sampled_from(TYPES), rid, st.integers(0, 5))
+    # one type asked for twice in one request, by 'any' and by instance id: the entries compete for the same instances,
+    # so the request can pass the per-entry pre-check and still be refused half-way (rollback path)
+    mixed = st.tuples(st.sampled_from(TYPES), st.integers(1, 4), st.integers(0, 4), st.integers(1, 4), st.booleans()).map(
+        lambda t: [[t[0], "any", t[1]], [t[0], t[2], t[3]]][:: 1 if t[4] else -1])
     op = st.one_of(
         st.tuples(st.just("alloc"), st.integers(0, 3), req),
         st.tuples(st.just("alloc"), st.integers(0, 3), req),
         st.tuples(st.just("alloc_multi"), st.integers(0, 3), st.lists(req, min_size=1, max_size=3)),
+        st.tuples(st.just("alloc_multi"), st.integers(0, 3), mixed),
         st.tuples(st.just("dealloc"), st.integers(0, 3)),
         st.tuples(st.just("dealloc"), st.integers(0, 3)),
         st.tuples(st.just("copy")),
